@@ -19,7 +19,7 @@ from ..common import rng_for, b2j
 
 LEVEL = "exploration"
 SHARDS = {"quick": 1, "thorough": 16}
-REQUIRED = ("sequences_count_mode", "sequences_until_mode", "until_evaluations", "when_false_observed", "when_true_observed",
+REQUIRED = ("earlier_packets_rechecked", "sequences_count_mode", "sequences_until_mode", "until_evaluations", "when_false_observed", "when_true_observed",
             "optional_present", "optional_absent", "refs_followed", "selected_field", "selected_packet", "selector_missing_key_errors",
             "continuity_edges", "count_zero_or_negative", "nested_in_sequence", "values_compared_with_model")
 MIN_NONTRIVIAL = 150
@@ -255,6 +255,23 @@ def one_input(run, bench, label, raw):
             if check_tree(run, bench, roots, witness, sig):
                 check_pack_emits_nothing(run, bench, r.pkt, witness)
             nontrivial = bool(sig)
+        # packets parsed earlier with this class keep their own referenced / selected sub-packets and lists
+        keep = bench.__dict__.setdefault("_earlier_%s" % v, [])
+        for old_pkt, old_pv, old_raw in keep:
+            run.count("earlier_packets_rechecked")
+            try:
+                now = monitors.pkt_to_pv(fam, fam["root"], old_pkt)
+            except monitors.Unreadable:
+                now = None
+            if now != old_pv:
+                run.violation("a packet parsed earlier changed when another input was parsed with the same class (a referenced / selected "
+                              "sub-packet or list is shared between parses)",
+                              dict(witness, variant=v, earlier_input=b2j(old_raw), earlier_values=old_pv.to_json(),
+                                   earlier_values_now=now.to_json() if now else None), None)
+                del keep[:]
+                break
+        keep.append((r.pkt, mr.value, raw))
+        del keep[:-4]
     run.case(key=(bench.skeleton, st, tuple(sorted(sig))), nontrivial=nontrivial or bool(sig))
 
 
